@@ -2,6 +2,7 @@
 package c17
 
 import (
+	"math/bits"
 	"testing/iotest"
 	"io"
 	"bufio"
@@ -733,4 +734,116 @@ func TestSizeSweep(t *testing.T) {
 		}
 	}
 	P.SetExtra("size_sweep_cases", n)
+}
+
+// ---------- section boundaries at round stream offsets ----------
+
+func paddedAt(target int, idx byte) (tok.Tok, bool) {
+	mk := func(k int) (tok.Tok, int) {
+		pad := make([]byte, k)
+		for i := range pad {
+			pad[i] = 'a' + byte(i%26)
+		}
+		d := tok.Tok{Dlg: &tok.Dlg{Iss: tok.KeyRef{Alg: keys.Ed25519, Idx: 0}, Aud: tok.KeyRef{Alg: keys.Ed25519, Idx: 1}, Sub: "iss", Cmd: "/pad",
+			Nonce: append([]byte("padpadpadpa"), idx), Meta: []tok.KVal{{K: "pad", V: val.Bytes(pad)}}}}
+		tk, priv, err := tok.Build(d)
+		if err != nil {
+			return d, -1
+		}
+		b, _, err := tk.ToSealed(priv)
+		if err != nil {
+			return d, -1
+		}
+		return d, len(b)
+	}
+	k := target - 400
+	if k < 0 {
+		return tok.Tok{}, false
+	}
+	for try := 0; try < 6; try++ {
+		d, n := mk(k)
+		if n < 0 {
+			return tok.Tok{}, false
+		}
+		if n == target {
+			return d, true
+		}
+		k += target - n
+		if k < 0 {
+			return tok.Tok{}, false
+		}
+	}
+	return tok.Tok{}, false
+}
+
+// TestRoundBoundaries: CAR containers built so that a boundary between two sections falls EXACTLY on a round stream
+// offset - 2^16, 2^20, 2^24 and 2^25 (32 MiB) bytes, where buffers, chunked readers and size limits have their edges -
+// with more tokens behind it. All tokens have the same sealed size, so the offsets do not depend on the order the
+// writer emits them in. Honest containers: every reader variant returns every token.
+func TestRoundBoundaries(t *testing.T) {
+	targets := []int{1 << 16, 1 << 20, 1 << 24}
+	targets = append(targets, 1<<25)
+	_ = os.Getenv
+	// header length of the library's CAR
+	w0 := container.NewWriter()
+	probe := fixedSets()[1][0]
+	ptk, ppriv, _ := tok.Build(probe)
+	pdata, pid, _ := ptk.ToSealed(ppriv)
+	w0.AddSealed(pid, pdata)
+	car0, _ := w0.ToCar()
+	_, bounds0, err := ctr.CarSections(car0)
+	if err != nil || len(bounds0) == 0 {
+		t.Fatalf("INCONCLUSIVE cannot measure the CAR header: %v", err)
+	}
+	header := bounds0[0]
+	n := 0
+	for _, T := range targets {
+		j := 6
+		if T <= 1<<20 {
+			j = 3
+		}
+		if (T-header)%j != 0 {
+			// choose j so that the section size is an integer
+			for j = 2; j < 12 && (T-header)%j != 0; j++ {
+			}
+			if (T-header)%j != 0 {
+				P.Class("round-boundary:not-constructible")
+				continue
+			}
+		}
+		sec := (T - header) / j
+		vl := len(binary.AppendUvarint(nil, uint64(sec)))
+		size := sec - vl - 36
+		if len(binary.AppendUvarint(nil, uint64(36+size))) != vl {
+			P.Class("round-boundary:not-constructible")
+			continue
+		}
+		var set []tok.Tok
+		ok := true
+		for i := 0; i < j+2; i++ {
+			d, good := paddedAt(size, byte(i))
+			if !good {
+				ok = false
+				break
+			}
+			set = append(set, d)
+		}
+		if !ok {
+			P.Class("round-boundary:not-constructible")
+			continue
+		}
+		for _, f := range []string{"car", "carb64"} {
+			for rk := 0; rk <= 5; rk++ {
+				if T >= 1<<24 && !h.Thorough() && (rk > 1 || (f == "carb64" && rk > 0)) {
+					continue // quick tier: the two largest containers through two source types only
+				}
+				prop.One(t, Case{Toks: set, Order: []int{0}, Format: f, WStream: rk%2 == 1, RStream: true, RKind: rk})
+				n++
+			}
+			prop.One(t, Case{Toks: set, Order: []int{0}, Format: f, RStream: false})
+			n++
+		}
+		P.Class(fmt.Sprintf("round-boundary:2^%d", bits.Len(uint(T))-1))
+	}
+	P.SetExtra("round_boundary_cases", n)
 }
